@@ -52,7 +52,9 @@ class C13(Prop):
         np, cv = self.np, self.cv
         s, d, r = case['s'], case['d'], case['r']
         if case['array']:
-            S, D, R = np.array([s, 1.0]), np.array([d, 0.5]), np.array([r, 0.3])
+            # batches of two or of exactly three sources (3 x 3 blocks are where an orientation test by shape goes wrong)
+            nb = 2 + (int(abs(s) * 1000) % 2)
+            S, D, R = np.array([s, 1.0, 2.5][:nb]), np.array([d, 0.5, 1.1][:nb]), np.array([r, 0.3, -2.0][:nb])
         else:
             S, D, R = s, d, r
         T, N, P = cv.SDR_TNP(S, D, R)
